@@ -8,13 +8,13 @@ from harness.core import Failure, lib_exception_failure
 
 
 class Stack:
-    def __init__(self, specs, frags=None, connect_client=True, yield_drains=False):
+    def __init__(self, specs, frags=None, connect_client=True, yield_drains=False, early=()):
         from indi.client.client import Client
 
         frags = frags or {}
         self.net = net.Net(yield_drains=yield_drains)
         self.loop = self.net.loop
-        self.dep = drivers.Deployment(specs, self.net.router)
+        self.dep = drivers.Deployment(specs, self.net.router, early=early)
         self.client = None
         if connect_client:
             self.control = net.FakeTCP(self.net, frags.get("c2s"), frags.get("s2c"))
@@ -148,8 +148,10 @@ def compare_views(dep, client, blob_mode=None, who="client", only=None, blob_sta
         for vn, w in want[dn].items():
             g = got[dn][vn]
             for f in ("kind", "state", "label", "group"):
-                if f == "state" and w["kind"] == "BLOB" and not blob_state:
-                    continue  # a BLOB property's state travels in setBLOBVector, which this observer's policy excludes
+                if f == "state" and w["kind"] == "BLOB" and not (blob_state(dn, vn) if callable(blob_state) else blob_state):
+                    # a BLOB property's state travels in setBLOBVector, which this observer's policy excludes - or which
+                    # raced with a definition on the other connection (blob_state callable says so)
+                    continue
                 if str(g[f]) != str(w[f]):
                     raise Failure(f"{who}-metadata:{f}", f"{dn}.{vn}: {f}={g[f]!r}, expected {w[f]!r}")
             if sorted(g["elements"]) != sorted(w["elements"]):
